@@ -418,8 +418,13 @@ pub fn replay(specs: &[PropSpec], path: &str) -> i32 {
     let choices: Vec<crate::rt::Point> =
         serde_json::from_value(doc["choices"].clone()).unwrap_or_default();
     let order = parse_order(doc["order"].as_str().unwrap_or("run-asc"));
-    let r1 = run_once(choices.clone(), order, s.params.clone(), s.body.clone());
-    let r2 = run_once(choices, order, s.params.clone(), s.body.clone());
+    let mut params = s.params.clone();
+    if std::env::var("NV_OBSERVE").is_ok() {
+        // (debugging aid: show link traffic; the choice structure does not depend on it)
+        params.observe_links = true;
+    }
+    let r1 = run_once(choices.clone(), order, params.clone(), s.body.clone());
+    let r2 = run_once(choices, order, params, s.body.clone());
     println!("scenario: {} :: {}", s.name, s.descr);
     println!("status: {:?}   virtual time: {:?}", r1.status, r1.virtual_time);
     for e in r1.log.iter().take(400) {
